@@ -257,6 +257,40 @@ def c06(desc, rec):
                     f"(family {fam}, mode {desc.get('mode')}, after {rec.steps} cycles)"}]
 
 
+# ----------------------------------------------------------------------------- C09 (observational part)
+def _field_diffs(before, after, prefix=""):
+    diffs = []
+    if isinstance(before, dict) and isinstance(after, dict):
+        for k in sorted(set(before) | set(after), key=str):
+            if k not in before or k not in after:
+                diffs.append(prefix + str(k))
+            elif not _deep_equal(before[k], after[k]):
+                sub = _field_diffs(before[k], after[k], prefix + str(k) + ".")
+                diffs.extend(sub or [prefix + str(k)])
+    elif isinstance(before, list) and isinstance(after, list) and len(before) == len(after) \
+            and all(isinstance(x, dict) for x in before + after):
+        for i, (x, y) in enumerate(zip(before, after)):
+            diffs.extend(_field_diffs(x, y, prefix + f"{i}."))
+    elif not _deep_equal(before, after):
+        diffs.append(prefix.rstrip("."))
+    return diffs
+
+
+def c09_obs(desc, rec):
+    """Config and task dumps taken before the observed optimize() call vs after it returned or raised."""
+    out = []
+    opt = desc["optimizer"]
+    outcome = "returned" if rec.exc is None else "raised"
+    for f in _field_diffs(rec.cfg_before, rec.cfg_after):
+        out.append({"cls": [opt, "config", f, outcome],
+                    "msg": f"config field {f!r} changed after optimize() {outcome} (mode {desc.get('mode')})"})
+    for f in _field_diffs(rec.task_before, rec.task_after):
+        out.append({"cls": [opt, "task", f, outcome],
+                    "msg": f"task field {f!r} changed after optimize() {outcome} (family {desc['task'].get('family')}, "
+                           f"mode {desc.get('mode')})"})
+    return out
+
+
 # ----------------------------------------------------------------------------- C10
 def c10(desc, rec):
     out = []
